@@ -1219,3 +1219,56 @@ case("c16-jump-keys-stay-inherited", "C16", "mutant", [(H + "jump_to_stage/handl
 case("c10-sweeps-buffered-workflows", "C10", "mutant", [(REC_, """            statuses={WorkflowStatus.RUNNING, WorkflowStatus.NOT_STARTED},""", """            statuses={WorkflowStatus.RUNNING, WorkflowStatus.NOT_STARTED, WorkflowStatus.BUFFERED},""")], "C10.R8")
 
 case("c20-membership-valueerror-dropped", "C20", "mutant", [(EX_, """            except (TypeError, ValueError) as e:""", """            except TypeError as e:""")], "C20.R3")
+case("c13-refactor-try-else-baseexception", "C13", "refactor", [("src/stabilize/persistence/sqlite/store/store.py", """        except Exception:
+            conn.rollback()
+            # Restore in-memory versions to match rolled-back database state
+            txn.rollback_versions()
+            abort_store_transaction()
+            raise
+        commit_store_transaction()
+""", """        except BaseException:
+            conn.rollback()
+            # Restore in-memory versions to match rolled-back database state
+            txn.rollback_versions()
+            abort_store_transaction()
+            raise
+        else:
+            commit_store_transaction()
+""")])
+_CLAIM_OLD = """                if stage.mutex_key and not txn.acquire_claim(
+                    message.execution_id,
+                    f"mutex:{stage.mutex_key}",
+                    stage.id,
+                    steal_if_owner_terminal=True,
+                ):
+                    raise _ClaimBlockedError("mutex")
+                if stage.deferred_choice_group and not txn.acquire_claim(
+                    message.execution_id,
+                    f"choice:{stage.deferred_choice_group}",
+                    stage.id,
+                ):
+                    raise _ClaimBlockedError("choice")
+                txn.store_stage(stage, expected_phase=claim_expected_phase)
+"""
+_CLAIM_NEW = """                self._take_claims(txn, stage, message)
+                txn.store_stage(stage, expected_phase=claim_expected_phase)
+"""
+_CLAIM_HELPER = """    def _take_claims(self, txn, stage, message) -> None:
+        if stage.mutex_key and not txn.acquire_claim(
+            message.execution_id,
+            f"mutex:{stage.mutex_key}",
+            stage.id,
+            steal_if_owner_terminal=True,
+        ):
+            raise _ClaimBlockedError("mutex")
+        if stage.deferred_choice_group and not txn.acquire_claim(
+            message.execution_id,
+            f"choice:{stage.deferred_choice_group}",
+            stage.id,
+        ):
+            raise _ClaimBlockedError("choice")
+
+    def _start_if_ready(
+"""
+for _p in ("C04", "C11", "C01"):
+    case(f"{_p.lower()}-refactor-claims-helper", _p, "refactor", [(H + "start_stage/handler.py", _CLAIM_OLD, _CLAIM_NEW), (H + "start_stage/handler.py", "    def _start_if_ready(\n", _CLAIM_HELPER)])
